@@ -252,6 +252,10 @@ def run(ctx, R, tier):
     ok = all(ccfg.guarded(n, lambda e: edge_has_fact(e, keep_open)) for n in rets)
     R.check(ok, "C13-R5", "close|early-return-only-keep_open", "close() returns early only for keep_open connections", c.loc(),
             "close() can return before the cleanup for a reason other than keep_open")
+    scl = [n for cc, _ in ctx.cg.calls_of(c) if unparse(cc.func) == "self.sock.close" for n in ctx.node_of(c, cc)]
+    ok = bool(scl) and ccfg.all_paths_cross([ccfg.entry], lambda e: (e.src in scl) or edge_has_fact(e, keep_open), targets=[ccfg.exit])
+    R.check(ok, "C13-R5", "close|socket-really-closed", "unless the connection is keep_open, every path through close() calls self.sock.close()", c.loc(),
+            "close() can finish without closing the socket (only shutdown, or nothing): the peer is never disconnected and the descriptor leaks")
     tr = ctx.fn("Pyro5.callcontext._CallContext.track_resource")
     adds = [cc for cc, _ in ctx.cg.calls_of(tr) if unparse(cc.func) == "self.client.tracked_resources.add"]
     R.check(bool(adds), "C13-R5", "track_resource|tracks-on-connection", "resources are tracked on the calling connection's set", tr.loc(),
